@@ -45,6 +45,19 @@ def returned_battery(tier):
         add({"op": "parse", "cif": "d" + pol, "text": BAD_DOC, "errors": pol}, "cif_parse of a defective document into a CIF, error policy %s" % pol)
     for e in range(0, 8):
         add({"op": "parse", "text": BAD_DOC, "errors": "script", "escript": [0] * e + [7], "edefault": 0}, "cif_parse, error callback %d answers 7" % e)
+    # inputs at the edges of the parser's start-up: nothing, a bare byte-order mark in each encoding form, a version comment
+    # without a line, a byte-order mark and a version comment
+    for label, hx in (("empty input", ""), ("a bare byte-order mark (UTF-8)", "efbbbf"), ("a bare byte-order mark (UTF-16LE)", "fffe"), ("a bare byte-order mark (UTF-16BE)", "feff"),
+                      ("a bare byte-order mark (UTF-32LE)", "fffe0000"), ("a byte-order mark and a blank", "efbbbf20"), ("a version comment without a line end", b"#\\#CIF_2.0".hex()),
+                      ("a byte-order mark and a version comment", "efbbbf" + b"#\\#CIF_2.0".hex()), ("a byte-order mark and a CIF 1.1 comment", "efbbbf" + b"#\\#CIF_1.1".hex()),
+                      ("one byte", "23"), ("one line end", "0a"), ("a truncated UTF-8 sequence", "e2"), ("data_ alone", b"data_".hex())):
+        for extra in ({}, {"cif": "e%d" % len(cmds)}, {"opts": {"prefer_cif2": 1}}, {"opts": {"prefer_cif2": -1}}):
+            add(dict({"op": "parse", "hex": hx, "errors": "accept"}, **extra), "cif_parse of %s%s" % (label, "" if not extra else " (%s)" % ", ".join(sorted(extra))))
+    # the input stream fails (EIO) after so many bytes
+    big = "#\\#CIF_2.0\ndata_a\n" + "".join("_n%d %d\n" % (i, i) for i in range(2000))
+    for n in (0, 3, 14, 4096, 5000, 8192, 12000):
+        add({"op": "parse", "text": big, "errors": "accept", "ioerr_after": n}, "cif_parse, reading the input fails after %d bytes" % n)
+        add({"op": "parse", "cif": "io%d" % n, "text": big, "errors": "accept", "ioerr_after": n}, "cif_parse into a CIF, reading the input fails after %d bytes" % n)
     add({"op": "create_block", "cif": "c", "code": "b1", "h": "h1"}, "cif_create_block, duplicate code")
     add({"op": "create_block", "cif": "c", "code": "b 3", "h": "h2"}, "cif_create_block, invalid code")
     add({"op": "get_block", "cif": "c", "code": "nope", "h": "h3"}, "cif_get_block, no such block")
